@@ -1,4 +1,5 @@
 import PyYetiVerif.Model.BulkGrid
+import PyYetiVerif.Model.BulkDmigX
 /-! Line protocol for C13 (text travels as lowercase hex of its ASCII bytes; a file is its
 lines joined by `0a`).
 
@@ -12,6 +13,7 @@ lines joined by `0a`).
   rdcards <hexname> <hextext>   → cards `;`-separated, fields `,`-separated: i<n> f<m>e<e> s<hex> b
   rdspoints|rdcsupers|rdextrn|rdsets|rddmig <hextext>,  rdtabled1 <hexname> <hextext>
       rddmig → name|form|mtype|rows|cols|frame  (frame: rows `/`-separated, entries `re@im`)
+  rddmigx <expanded 0|1> <square 0|1> <hextext>   → like rddmig (`rddmig(f, expanded=…, square=…)`)
   vecw  <arg>…                  → hex text of the rows (`" ".join`) | error:ValueError | error:IndexError
       <arg> = s <int>  |  v <k> <int>×k
   grids <wide 0|1> I <arg> C <arg> X <m> (hx hy hz)×m D <arg> P <oarg> S <oarg>   → hex text | error:…
@@ -166,6 +168,13 @@ def answerGrid (ws : List String) : Option String :=
       some (if cs.isEmpty then "none" else fmtRows cs)
   | _ => none
 
+def fmtDmigs : Option (List DmigRead) → String
+  | some ds => ";".intercalate (ds.map fun d =>
+      toHex d.name ++ "|" ++ fmtVal d.form ++ "|" ++ fmtVal d.mtype ++ "|" ++
+      " ".intercalate (d.rows.map fmtLbl) ++ "|" ++ " ".intercalate (d.cols.map fmtLbl) ++ "|" ++
+      "/".intercalate (d.frame.map fun row => " ".intercalate (row.map fun (x, y) => fmtVal x ++ "@" ++ fmtVal y)))
+  | none => "error"
+
 def answer (line : String) : String :=
   match (line.splitOn " ").filter (· ≠ "") with
   | "findseq" :: st :: ws => match st.toNat?, parseInts ws with
@@ -229,12 +238,8 @@ def answer (line : String) : String :=
   | ["rdsets", t] => match rdSets (linesOf t) with
       | some d => ";".intercalate (d.map fun (k, v) => fmtVal k ++ "=" ++ " ".intercalate (v.map toString))
       | none => "error"
-  | ["rddmig", t] => match rdDmig (linesOf t) with
-      | some ds => ";".intercalate (ds.map fun d =>
-          toHex d.name ++ "|" ++ fmtVal d.form ++ "|" ++ fmtVal d.mtype ++ "|" ++
-          " ".intercalate (d.rows.map fmtLbl) ++ "|" ++ " ".intercalate (d.cols.map fmtLbl) ++ "|" ++
-          "/".intercalate (d.frame.map fun row => " ".intercalate (row.map fun (x, y) => fmtVal x ++ "@" ++ fmtVal y)))
-      | none => "error"
+  | ["rddmig", t] => fmtDmigs (rdDmig (linesOf t))
+  | ["rddmigx", e, q, t] => fmtDmigs (rdDmigX ⟨e == "1", q == "1"⟩ (linesOf t))
   | ws => (answerGrid ws).getD "bad-op"
 
 partial def loop (h : IO.FS.Stream) (out : IO.FS.Stream) : IO Unit := do
